@@ -23,7 +23,7 @@ TRACE = ("Trace_C16", "Trace_C16.cfg")
 REQUIRED = ["edit-none", "edit-EditData", "edit-AddTimeStep", "edit-EditGlobalAttr", "edit-AddDataVar", "edit-EditGeomValue",
             "edit-ChangeGeomDtype", "edit-ReshapeSameBytes", "edit-RenameGeom", "edit-AttrAdd", "edit-AttrChange",
             "edit-AttrRemove", "edit-ChangeConvention", "route-inproc", "route-copy", "route-reopen", "route-runtime",
-            "route-subproc1", "route-subproc2", "route-fortran", "route-setcoords", "route-inplace", "route-afteruse", "edit-TransposeValues", "cf1d", "cf2d", "shoc_simple", "shoc_standard", "arakawa", "ugrid"]
+            "route-subproc1", "route-subproc2", "route-fortran", "route-setcoords", "route-inplace", "route-afteruse", "route-keyorder", "edit-TransposeValues", "cf1d", "cf2d", "shoc_simple", "shoc_standard", "arakawa", "ugrid"]
 RULE = ("one case = one base dataset (every convention) and its variants: the same dataset obtained by five routes (built in "
         "process, deep copy, saved and reopened, attribute strings built at run time, fresh interpreters with two other hash "
         "seeds), four edits of non-geometry content and every kind of single geometry edit (one value, dtype, shape with the "
@@ -177,6 +177,9 @@ def cases(tier: str, seed: int) -> list[dict]:
                 ev.append({"a": "Key", "edit": tv, "route": "fortran"})
             # the dataset is asked for its key, USED (polygons, bounds, spatial index, centres, a clip), and asked again
             ev.append({"a": "Key", "edit": edits_for(w)[0], "route": "afteruse"})
+            if conv == "arakawa":
+                ev.append({"a": "Key", "edit": edits_for(w)[0], "route": "keyorder"})
+                ev.append({"a": "Key", "edit": edits_for(w)[5], "route": "keyorder"})
             out.append({"src": "gen", "world": w, "events": ev})
     # a mesh whose coordinate lists (node_coordinates, face_coordinates) are separated by two blanks: every variable named
     # there belongs to the geometry, and an edit of the second one changes the key
@@ -410,6 +413,10 @@ def variant(w, ed, route, work):
         if w["conv"] == "cf1d":
             nm["ydim"] = ed["new"]          # renaming a dimension coordinate renames its dimension
         w["names"] = nm
+    if route == "keyorder":
+        # the same hand-made Arakawa C convention, the caller's coordinate_names written in another key order
+        w = dict(w, korder=w.get("korder", w.get("ny", 0) + 2 * w.get("nx", 0)) + 1)
+        ds = ds.copy(deep=True)
     ds = via_route(w, ds, route, work)
     obs, trailer, cname = key_of(w, ds, ed)
     return obs, trailer, inputs_of(w, ds), cname
